@@ -61,7 +61,7 @@ def functions_for(R, pid):
         tags = set(spec.raise_props) | set(spec.frame_props) | set(getattr(spec, 'report_props', ()))
         for _n, _f, _p in getattr(spec, 'report_clauses', []):
             tags |= set(_p)
-        for c in spec.post:
+        for c in list(spec.post) + list(getattr(spec, "state_post", [])) + list(getattr(spec, "raise_post", [])):
             tags |= set(c.props)
         if pid in tags:
             keys.append(key)
